@@ -360,9 +360,49 @@ def _helper_body(helper, bound: Dict[str, ast.expr]):
     return pre, mod.body
 
 
+def _hoist_helper_calls(fn, table: HelperTable):
+    """`stmt(... helper(args) ...)`  ->  `_hc = helper(args) ; stmt(... _hc ...)` for a helper with
+    several statements, when everything evaluated before the call in that statement is a plain name /
+    attribute / constant (so moving the call first changes nothing)."""
+    for owner, f, stmts in _blocks(fn):
+        new: List[ast.stmt] = []
+        for st in stmts:
+            if isinstance(st, (ast.Expr, ast.Assign, ast.Return, ast.AugAssign)) and not (
+                isinstance(getattr(st, "value", None), ast.Call) and table.lookup(st.value)
+            ):
+                calls_ = [n for n in ast.walk(st) if isinstance(n, ast.Call) and table.lookup(n)]
+                cand = None
+                for c in calls_:
+                    name, helper, is_m = table.lookup(c)
+                    hb = _strip_block(strip(copy.deepcopy(helper)).body)
+                    if len(hb) == 1 and isinstance(hb[0], ast.Return):
+                        continue  # expression helper: substituted in place
+                    # not inside a comprehension / lambda / conditional part (evaluated zero or many times)
+                    inside = False
+                    for n in ast.walk(st):
+                        if isinstance(n, (ast.ListComp, ast.SetComp, ast.DictComp, ast.GeneratorExp, ast.Lambda, ast.IfExp, ast.BoolOp)) and any(x is c for x in ast.walk(n)):
+                            inside = True
+                    if inside:
+                        continue
+                    others = [n for n in ast.walk(st) if isinstance(n, ast.Call) and n is not c and not any(x is c for x in ast.walk(n))]
+                    if others:
+                        continue
+                    cand = c
+                    break
+                if cand is not None:
+                    tmp = "_hc" + _fresh_suffix()
+                    new.append(ast.Assign(targets=[ast.Name(id=tmp, ctx=ast.Store())], value=cand))
+                    _replace_node(st, cand, ast.Name(id=tmp, ctx=ast.Load()))
+            new.append(st)
+        setattr(owner, f, new)
+    ast.fix_missing_locations(fn)
+    return fn
+
+
 def inline_helpers(fn, table: HelperTable, depth: int = 0):
     if depth > 3:
         return fn
+    fn = _hoist_helper_calls(fn, table)
     changed = False
     # expression helpers: body is a single return
     class _Expr(ast.NodeTransformer):
@@ -1212,8 +1252,103 @@ def _copy_overwrite(fn):
     return fn
 
 
+def _dict_forward(fn):
+    """d.update({"k": e, ...}) / d["k"] = e   ...   d["k"]   ->   e, for a local dict d and a constant
+    key, when nothing between the write and the read can change d["k"] or what e reads (e is a name
+    or a constant)."""
+    order, chain = _stmt_positions(fn)
+    stmt_of = _stmt_of(fn)
+    params = set(_params(fn))
+    for owner, f, stmts in _blocks(fn):
+        for i, st in enumerate(stmts):
+            writes: Dict[str, ast.expr] = {}
+            dname = None
+            if isinstance(st, ast.Expr) and isinstance(st.value, ast.Call) and isinstance(st.value.func, ast.Attribute) and st.value.func.attr == "update" and isinstance(st.value.func.value, ast.Name) and len(st.value.args) == 1 and isinstance(st.value.args[0], ast.Dict):
+                dname = st.value.func.value.id
+                for k, v in zip(st.value.args[0].keys, st.value.args[0].values):
+                    if isinstance(k, ast.Constant) and not _impure(v):
+                        writes[repr(k.value)] = v
+            elif isinstance(st, ast.Assign) and len(st.targets) == 1 and isinstance(st.targets[0], ast.Subscript) and isinstance(st.targets[0].value, ast.Name) and isinstance(st.targets[0].slice, ast.Constant) and not _impure(st.value):
+                dname = st.targets[0].value.id
+                writes[repr(st.targets[0].slice.value)] = st.value
+            if not writes or dname in params:
+                continue
+            # reads later in the same block (nested allowed), until d or a value's name is written
+            for later in stmts[i + 1:]:
+                stop = False
+                for n in [later] + list(_walk_no_nested(later)):
+                    if isinstance(n, ast.Subscript) and isinstance(n.ctx, ast.Load) and isinstance(n.value, ast.Name) and n.value.id == dname and isinstance(n.slice, ast.Constant) and repr(n.slice.value) in writes:
+                        if not isinstance(later, (ast.For, ast.While)):
+                            _replace_node(later, n, copy.deepcopy(writes[repr(n.slice.value)]))
+                ef = _effects(later)
+                read_names = set()
+                reads_state = False
+                for v in writes.values():
+                    read_names |= _names_loaded(v) - _comp_bound(v)
+                    reads_state = reads_state or any(isinstance(x, (ast.Attribute, ast.Subscript, ast.Call)) for x in ast.walk(v))
+                if dname in ef.writes or (read_names & ef.writes) or (reads_state and (ef.opaque or ef.attr_writes)):
+                    stop = True
+                # d passed to something that may change it
+                for n in [later] + list(_walk_no_nested(later)):
+                    if isinstance(n, ast.Call) and any(isinstance(a, ast.Name) and a.id == dname for a in list(n.args) + [k.value for k in n.keywords]) and not _pure_callee(n):
+                        stop = True
+                if stop or isinstance(later, (ast.For, ast.While)):
+                    break
+    ast.fix_missing_locations(fn)
+    return fn
+
+
+def _items_to_keys(fn):
+    """for k, v in D.items()  ->  for k in D  with v replaced by D[k]  (comprehensions, and loops whose
+    body does not write D): one normal form for the two spellings."""
+    for n in [fn] + list(_walk_no_nested(fn)):
+        gens = []
+        if isinstance(n, (ast.ListComp, ast.SetComp, ast.DictComp, ast.GeneratorExp)):
+            gens = [(g, n) for g in n.generators]
+        elif isinstance(n, ast.For):
+            gens = [(n, n)]
+        for g, scope in gens:
+            it, tg = g.iter, g.target
+            if not (isinstance(it, ast.Call) and isinstance(it.func, ast.Attribute) and it.func.attr == "items" and not it.args and not it.keywords and _is_place(it.func.value)):
+                continue
+            if not (isinstance(tg, ast.Tuple) and len(tg.elts) == 2 and all(isinstance(x, ast.Name) for x in tg.elts)):
+                continue
+            k, v = tg.elts[0].id, tg.elts[1].id
+            D = it.func.value
+            if isinstance(scope, ast.For):
+                ef = _effects(ast.Module(body=scope.body, type_ignores=[]))
+                base = D
+                while isinstance(base, (ast.Attribute, ast.Subscript)):
+                    base = base.value
+                attrs = {x.attr for x in ast.walk(D) if isinstance(x, ast.Attribute)}
+                if ef.opaque or base.id in ef.writes or (attrs & ef.attr_writes) or k in ef.writes or v in ef.writes:
+                    continue
+                region = scope.body
+            else:
+                region = [scope]
+            # v must not be re-bound in the region (other generators)
+            rebound = False
+            for r in region:
+                for x in ast.walk(r):
+                    if isinstance(x, ast.Name) and x.id == v and isinstance(x.ctx, ast.Store) and x is not tg.elts[1]:
+                        rebound = True
+            if rebound:
+                continue
+            look = ast.Subscript(value=copy.deepcopy(D), slice=ast.Name(id=k, ctx=ast.Load()), ctx=ast.Load())
+            for r in region:
+                for x in list(ast.walk(r)):
+                    if isinstance(x, ast.Name) and x.id == v and isinstance(x.ctx, ast.Load):
+                        _replace_node(r, x, copy.deepcopy(look))
+            g.target = ast.Name(id=k, ctx=ast.Store())
+            g.iter = D
+    ast.fix_missing_locations(fn)
+    return fn
+
+
 def expressions(fn):
     fn = _copy_overwrite(fn)
+    fn = _items_to_keys(fn)
+    fn = _dict_forward(fn)
     fn = _ExprCanon(_list_names(fn)).visit(fn)
     # P = P
     for owner, f, stmts in _blocks(fn):
@@ -1331,9 +1466,11 @@ def _write_effects(st) -> Tuple[Set[str], Set[str], bool]:
                     base = base.func if isinstance(base, ast.Call) else base.value
                 if isinstance(base, ast.Name):
                     names.add(base.id)
-            if isinstance(n.func, ast.Attribute) and isinstance(n.func.value, ast.Name) and n.func.value.id == "self":
+            if isinstance(n.func, ast.Attribute) and isinstance(n.func.value, ast.Name) and n.func.value.id == "self" and not (n.func.attr in _PURE_FUNCS or n.func.attr in _LIB_PURE_METHODS):
                 opaque = True
             if isinstance(n.func, ast.Attribute) and isinstance(n.func.value, ast.Call) and isinstance(n.func.value.func, ast.Name) and n.func.value.func.id == "super":
+                opaque = True
+            if isinstance(n.func, ast.Name) and n.func.id in _REPO_FUNCS and n.func.id not in _PURE_FUNCS:
                 opaque = True
             if any(k.arg == "inplace" for k in n.keywords):
                 opaque = True
